@@ -54,13 +54,17 @@ type OpEngine struct {
 	M *interp.Machine
 	W *spec.World
 
-	nodes           []*Node
-	thresholds      *[]int
-	leafAlias       map[string]string // exact-tie cases: elements of tensor key equal those of tensor value
-	PiecewiseProofs int               // comparisons decided by region-wise equality of indicator expressions
-	LoopCuts        int               // paths abandoned by bounded loop unrolling
-	bypass          *ssa.Function
-	Findings        []Finding
+	nodes      []*Node
+	thresholds *[]int
+	// concrete-size fallback of the shape engine (see RunInstance)
+	concreteSizes     bool
+	atomSize          map[string]int64
+	ConcreteFallbacks int
+	leafAlias         map[string]string // exact-tie cases: elements of tensor key equal those of tensor value
+	PiecewiseProofs   int               // comparisons decided by region-wise equality of indicator expressions
+	LoopCuts          int               // paths abandoned by bounded loop unrolling
+	bypass            *ssa.Function
+	Findings          []Finding
 	// statistics
 	Paths       int
 	ClosureRuns int
@@ -184,6 +188,17 @@ func (e *OpEngine) dataLayer(fn *ssa.Function, args []interp.Value) bool {
 		return false
 	}
 	sig := fn.Signature
+	// only functions whose results can be summarised (nothing, floats, element data, booleans) are skipped
+	for i := 0; i < sig.Results().Len(); i++ {
+		rt := sig.Results().At(i).Type()
+		if isFloat(rt) || isAnyish(rt) {
+			continue
+		}
+		if b, ok := rt.Underlying().(*types.Basic); ok && b.Info()&types.IsBoolean != 0 {
+			continue
+		}
+		return false
+	}
 	if sig.Recv() != nil && len(args) > 0 && sig.Params().Len() <= 1 {
 		// accessors on a tensor whose data is fully known (single-element tensors): interpreted, not summarised
 		if rp, ok := e.W.AsTensor(args[0]); ok {
@@ -586,6 +601,41 @@ type TensorArg struct {
 }
 
 func (e *OpEngine) mkTensor(name string, ta TensorArg) interp.PtrV {
+	if e.concreteSizes {
+		// concrete-size fallback: every size atom becomes 2 or 3 (the same atom always the same value)
+		dims := make([]sym.Poly, len(ta.Dims))
+		conc := make([]int, len(ta.Dims))
+		ok := true
+		for i, d := range ta.Dims {
+			m := map[string]sym.Poly{}
+			for _, a := range d.Atoms() {
+				v, has := e.atomSize[a]
+				if !has {
+					v = 2 + int64(len(e.atomSize)%2)
+					e.atomSize[a] = v
+				}
+				m[a] = sym.PInt(v)
+			}
+			dims[i] = d.Subst(m)
+			c, isC := dims[i].Const()
+			if !isC || c < 1 || c > 6 {
+				ok = false
+			}
+			conc[i] = int(c)
+		}
+		if ok {
+			ta.Dims = dims
+			t := e.mkTensorPlain(name, ta)
+			if e.dataMode {
+				interp.Store(t.C.Fields[e.A.FData], e.labelledData(name, conc, nil))
+			}
+			return t
+		}
+	}
+	return e.mkTensorPlain(name, ta)
+}
+
+func (e *OpEngine) mkTensorPlain(name string, ta TensorArg) interp.PtrV {
 	g := e.W.NewGradContext(ta.Tracked, ta.Dirty, nil)
 	if ta.Tracked {
 		// give tracked operands a (harmless) back-edge list so that "no edges" on results is meaningful
